@@ -544,3 +544,171 @@ def malformed(rnd, seeds):
         return join_tokens(toks[:i] + [('op', junk)] + toks[i:])
     rnd.shuffle(toks)
     return join_tokens(toks[: rnd.randint(1, min(len(toks), 12))])
+
+
+# ----------------------------------------------------------------------------- core terms (Coq model)
+# prefix notation of coq/theories/C01/Model.v terms, see ocaml/c01_main.ml / harness/impl/c01_impl.py
+
+N_NAMES, N_INTS, N_FLOATS, N_BIG, N_DEC, N_STRS, N_BYTES, N_PARAMS = 30, 7, 4, 3, 3, 11, 6, 6
+PLAIN_NAMES = [0, 1, 2, 3, 4, 5, 6, 7, 8, 9, 10, 11, 12, 18, 19, 20, 21]      # identifiers that need no quoting
+ALL_NAMES = list(range(N_NAMES))
+
+
+def g_name(rnd):
+    return rnd.choice(PLAIN_NAMES) if rnd.random() < 0.8 else rnd.choice(ALL_NAMES)
+
+
+def g_optmod(rnd):
+    return '-' if rnd.random() < 0.75 else str(g_name(rnd))
+
+
+def g_type(rnd, d=2):
+    if d <= 0 or rnd.random() < 0.7:
+        return f'n {g_optmod(rnd)} {g_name(rnd)}'
+    k = rnd.randint(1, 2)
+    return f'c {g_optmod(rnd)} {rnd.choice([23, 24, 7])} {k} ' + ' '.join(g_type(rnd, d - 1) for _ in range(k))
+
+
+def g_step(rnd):
+    r = rnd.random()
+    if r < 0.55:
+        return f'p 0 {g_name(rnd)}'
+    if r < 0.75:
+        return f'p 1 {g_name(rnd)}'
+    if r < 0.88:
+        return f'a {g_name(rnd)}'
+    return 'i ' + g_type(rnd, 1)
+
+
+def g_const(rnd, neg_ok=True):
+    r = rnd.random()
+    nneg = 0
+    if neg_ok and rnd.random() < 0.25:
+        nneg = rnd.choice([1, 1, 2])
+    if r < 0.5:
+        return f'C i {nneg} {rnd.randrange(N_INTS)}'
+    if r < 0.6:
+        return f'C f {nneg} {rnd.randrange(N_FLOATS)}'
+    if r < 0.66:
+        return f'C n {nneg} {rnd.randrange(N_BIG)}'
+    if r < 0.72:
+        return f'C d {nneg} {rnd.randrange(N_DEC)}'
+    if r < 0.88:
+        return f'C s 0 {rnd.randrange(N_STRS)}'
+    if r < 0.94:
+        return f'C b 0 {rnd.randrange(N_BYTES)}'
+    return f'C t 0 {rnd.randrange(2)}'
+
+
+def g_term(rnd, d, nops=28, image=True):
+    """random term; image=True keeps inside the parser's image most of the time"""
+    if d <= 0 or rnd.random() < 0.12:
+        r = rnd.random()
+        if r < 0.4:
+            return g_const(rnd)
+        if r < 0.5:
+            return f'P {rnd.randrange(N_PARAMS)}'
+        if r < 0.9:
+            k = rnd.choice([0, 0, 0, 1, 2])
+            return (f'R {g_optmod(rnd)} {g_name(rnd)} {k} ' + ' '.join(g_step(rnd) for _ in range(k))).strip()
+        if r < 0.95:
+            k = rnd.randint(1, 2)
+            first = rnd.choice([f'p 0 {g_name(rnd)}', f'p 1 {g_name(rnd)}', f'a {g_name(rnd)}'])
+            return (f'Q {k} {first} ' + ' '.join(g_step(rnd) for _ in range(k - 1))).strip()
+        return f'G {g_optmod(rnd)} {g_name(rnd)}'
+    sub = lambda: g_term(rnd, d - 1, nops, image)
+    r = rnd.random()
+    if r < 0.30:
+        return f'B {rnd.randrange(nops)} {sub()} {sub()}'
+    if r < 0.42:
+        op = rnd.choice(['+', '-', '-', 'N', 'E', 'D'])
+        x = sub()
+        if image and op == '-' and x.startswith('C ') and x.split()[1] in 'ifnd':
+            op = 'N'
+        return f'U {op} {x}'
+    if r < 0.47:
+        return f'I {rnd.randrange(2)} {sub()} {g_type(rnd)}'
+    if r < 0.53:
+        return f'F {rnd.randrange(2)} {sub()} {sub()} {sub()}'
+    if r < 0.62:
+        k = rnd.randint(0, 3)
+        return (f'S {rnd.choice("TAS")} {k} ' + ' '.join(sub() for _ in range(k))).strip()
+    if r < 0.65:
+        k = rnd.randint(1, 2)
+        names = rnd.sample(PLAIN_NAMES, k)
+        return f'N {k} ' + ' '.join(f'{n} {sub()}' for n in names)
+    if r < 0.72:
+        ka, kk = rnd.randint(0, 2), rnd.choice([0, 0, 1, 2])
+        names = rnd.sample(PLAIN_NAMES, kk)
+        parts = [f'K {g_optmod(rnd)} {g_name(rnd)} {ka}'] + [sub() for _ in range(ka)] + [str(kk)] + [f'{n} {sub()}' for n in names]
+        return ' '.join(parts)
+    if r < 0.79:
+        return f'T {rnd.randrange(2)} {g_type(rnd)} {sub()}'
+    if r < 0.85:
+        x = sub()
+        if image and x.startswith('D '):
+            x = f'S A 1 {x}'
+        k = rnd.randint(1, 2)
+        ixs = []
+        for _ in range(k):
+            if rnd.random() < 0.5:
+                ixs.append(f'0 {sub()} _')
+            else:
+                a = sub() if rnd.random() < 0.6 else '_'
+                b = sub() if (rnd.random() < 0.6 or a == '_') else '_'
+                ixs.append(f'1 {a} {b}')
+        return f'D {k} {x} ' + ' '.join(ixs)
+    if r < 0.89:
+        return f'A {sub()}'
+    if r < 0.94:
+        x = sub()
+        if image and x[0] in 'RQX':
+            x = f'S T 2 {x} C i 0 1'
+        k = rnd.randint(1, 2)
+        return f'X {x} {k} ' + ' '.join(g_step(rnd) for _ in range(k))
+    k = rnd.randint(1, 3)
+    els = []
+    for n in rnd.sample(PLAIN_NAMES, k):
+        els.append(f'{n} ' + (sub() if rnd.random() < 0.4 else '_'))
+    return f'H {sub()} {k} ' + ' '.join(els)
+
+
+# texts over the token vocabulary of the model, for model-parser vs real-parser agreement
+CORE_NAMES = ['x', 'y', 'z', 'Foo', 'bar', 'a1', 'T', 'U', 'f', 'g', 'w', '`my name`', '`select`', 'p', 'q', 'k']
+CORE_ATOMS = ['x', 'y', '1', '2', "'abc'", '$x', '.bar', '.<bar', '@p', 'x.y', 'std::f(x)', 'f()', 'f(x, k := 2)', '(1, 2)', '(1,)', '()', '[1]', '[]',
+              '{1, 2}', '{}', '(a1 := 1)', 'true', 'false', '-5', '1.5', '1n', "b'ab'", 'x[0]', 'x[1:2]', 'x[:2]', 'x[1:]', 'x {bar}', 'x {bar, p := 1}',
+              'GLOBAL g', 'GLOBAL std::g', 'x[IS T]', 'x[IS std::T].y', 'Foo.bar.<p[IS T]@q', '<T>x', '<optional T>x', '<array<T>>x', '<tuple<T, U>>x',
+              'DETACHED x', '`my name`.`select`', 'std::Foo', '(x)', '((x))', '(x.y).z', '(x[0])[1]', '(1, 2).p', '$x.p', '{1}.p', '(x + y).p']
+CORE_BINOPS = ['+', '-', '*', '/', '//', '%', '^', '++', '??', '=', '!=', '<', '>', '<=', '>=', '?=', '?!=',
+               'AND', 'OR', 'LIKE', 'NOT LIKE', 'ILIKE', 'NOT ILIKE', 'IN', 'NOT IN', 'UNION', 'EXCEPT', 'INTERSECT']
+CORE_PREFIX = ['-', '+', 'NOT', 'EXISTS', 'DISTINCT', 'DETACHED', '<T>', '<optional std::T>', '<array<T>>']
+
+
+def core_text(rnd, depth, parens=0.3):
+    if depth <= 0 or rnd.random() < 0.15:
+        return rnd.choice(CORE_ATOMS)
+    sub = lambda: core_text(rnd, depth - 1, parens)
+    mp = lambda s: f'({s})' if rnd.random() < parens else s
+    r = rnd.random()
+    if r < 0.48:
+        return f'{mp(sub())} {rnd.choice(CORE_BINOPS)} {mp(sub())}'
+    if r < 0.66:
+        op = rnd.choice(CORE_PREFIX)
+        return f'{op} {mp(sub())}' if op[0] != '<' else f'{op}{mp(sub())}'
+    if r < 0.74:
+        return f'{mp(sub())} IF {mp(sub())} ELSE {mp(sub())}' if rnd.random() < 0.6 else f'IF {sub()} THEN {sub()} ELSE {mp(sub())}'
+    if r < 0.80:
+        t = rnd.choice(['T', 'std::T', '(array<T>)', 'array<T>', '(T)'])
+        return f'{mp(sub())} IS {rnd.choice(["", "NOT "])}{t}'
+    if r < 0.88:
+        post = rnd.choice(['[0]', '[1:2]', '[:2]', '[1:]', '.p', '.<q', '@p', ' {bar}', ' {bar, p := 1}', '[IS T]', '.p.q'])
+        return f'{mp(sub())}{post}'
+    es = [sub() for _ in range(rnd.randint(0, 3))]
+    k = rnd.random()
+    if k < 0.25:
+        return '(' + ', '.join(es) + (',' if len(es) == 1 or (es and rnd.random() < 0.2) else '') + ')'
+    if k < 0.5:
+        return '[' + ', '.join(es) + (',' if es and rnd.random() < 0.2 else '') + ']'
+    if k < 0.75:
+        return '{' + ', '.join(es) + '}'
+    return 'f(' + ', '.join(es) + (', ' if es else '') + 'k := ' + sub() + ')'
